@@ -205,7 +205,7 @@ func Check() *common.Check {
 		Level: "exploration",
 		// every case is recorded before it runs: a fatal error or a hang of the worker is attributed to it
 		CrashSafe: true,
-		Rule: fmt.Sprintf("every accepted statement of the sqlgen space (quick: shapes with <=2 operator nodes in WHERE, all clause/DML/DDL/hole/nesting sections; thorough: everything incl. 3-operator shapes) every clause-option and DML statement again as commented text (2 comment layouts + 3 hand placements of line / block comments before, after and between code) and every accepted .sql file under /repo/testdata, "+
+		Rule: fmt.Sprintf("every accepted statement of the sqlgen space (quick: shapes with <=2 operator nodes in WHERE, all clause/DML/DDL/hole/nesting sections; thorough: everything incl. 3-operator shapes) every expression shape again with lower-case words on separate lines and with mixed-case words between comments, every clause-option and DML statement again as commented text (2 comment layouts + 3 hand placements of line / block comments before, after and between code) and every accepted .sql file under /repo/testdata, "+
 			"each through %d (serialiser, option set) pairs: AST.SQL; AST.Format x {keyword case 3 x indent style 2 x width 3 x newline-per-clause 2 x semicolon 2} + 2 presets; the CLI SQLFormatter x 24 option sets; gosqlx.Format x 12; formatter.Format x 8. "+
 			"Oracle: re-parse accepted, tree equal up to keyword / operator-word / function-name / type-name letter case, second pass string-identical. distinct = distinct SQL text; non-trivial = statement uses >=3 grammar features", len(sers)),
 		Assume: []string{"tree equality under sqlgen's canonical dump; letter case of function names and type names folded (they are keywords in the tokenizer's tables)"},
@@ -218,6 +218,15 @@ func Check() *common.Check {
 				}
 				sql := s.SQL()
 				e.Do(sql, func(c *common.Ctx) { runCase(c, sql, s.Feat, s.Kind) })
+				// the letter case the operator words and keywords were written in is kept in the tree: the expression
+				// shapes again with lower-case words on separate lines and with mixed-case words between comments
+				if strings.HasPrefix(name, "shape") {
+					for _, l := range []int{sqlgen.LLines, sqlgen.LComments} {
+						lsql := sqlgen.Render(s.Toks, l)
+						feat := append(append([]string{}, s.Feat...), fmt.Sprintf("layout:word-case-%d", l))
+						e.Do("L/"+lsql, func(c *common.Ctx) { runCase(c, lsql, feat, s.Kind) })
+					}
+				}
 			})
 			// commented texts: the text-based serialisers keep comments, so where a comment stood (before / after code on
 			// its line, one or several per line, line or block) must not change the tree nor cost stability
